@@ -294,6 +294,14 @@ class Evaluator:
                 elif name == "branch" and last_seg(cal.get("trait")) == "Try" and args and args[0][0] == "variant" and args[0][1] in ("Result", "Option"):
                     okv = args[0][2] in ("Ok", "Some")
                     res = ("variant", "ControlFlow", "Continue" if okv else "Break", args[0][3] if len(args[0]) > 3 else ())
+                elif name == "then_some" and len(args) == 2 and args[0][0] == "int" and cal.get("self_ty") == "bool":
+                    # bool::then_some: Some(value) on true, None on false
+                    res = ("variant", "Option", "Some", (args[1],)) if args[0][1] else ("variant", "Option", "None", ())
+                elif name in ("ok_or", "ok_or_else") and len(args) == 2 and args[0][0] == "variant" and args[0][1] == "Option":
+                    if args[0][2] == "Some":
+                        res = ("variant", "Result", "Ok", args[0][3] if len(args[0]) > 3 else ())
+                    else:
+                        res = ("variant", "Result", "Err", (args[1],) if name == "ok_or" else (("opaque", "call:%s" % name),))
                 elif name == "then_with" and len(args) == 2 and args[0][0] == "ordering":
                     res = args[0] if args[0][1] != 0 else self._call_closure(args[1], [])
                 elif name == "then" and len(args) == 2 and args[0][0] == "ordering" and args[1][0] == "ordering":
